@@ -5,7 +5,7 @@
    the object state: unknown fields, empty-but-present optional / oneof / nested members,
    out-of-range and ill-typed values are all covered. *)
 From BP Require Import Base.Prelude Model.Types Model.Varint Model.Object Model.Encode Model.Len.
-From BP Require Import Proofs.LenP.
+From BP Require Import Proofs.LenP Proofs.LenP2 Model.Decode Model.History Model.C07Ops.
 
 Theorem C09_len : forall sc o bs, enc_obj sc o = Ok bs -> len_obj sc o = Ok (Zlength bs).
 Proof. exact len_of_bytes. Qed.
@@ -44,6 +44,50 @@ Print Assumptions C09_dump_delimited_prefix.
 Theorem C09_dump_err : forall sc o d e, enc_obj sc o = Err e -> dump sc o d = Err e.
 Proof. exact dump_fails_iff_bytes_fails. Qed.
 Print Assumptions C09_dump_err.
+
+(* ---- the same in the other direction and as sizes (Proofs/LenP2.v) ---- *)
+(* len() returns only when bytes() does, and what it returns is a size *)
+Theorem C09_len_ok_inv : forall sc o n, len_obj sc o = Ok n -> exists bs, enc_obj sc o = Ok bs /\ n = Zlength bs.
+Proof. exact len_ok_bytes_ok. Qed.
+Print Assumptions C09_len_ok_inv.
+
+Theorem C09_len_nonneg : forall sc o n, len_obj sc o = Ok n -> 0 <= n.
+Proof. exact len_nonneg. Qed.
+Print Assumptions C09_len_nonneg.
+
+(* whatever dump() wrote is bytes(m), preceded (delimited form only) by the varint of its length: nothing else can come out *)
+Theorem C09_dump_ok_inv : forall sc o d out, dump sc o d = Ok out ->
+  exists bs, enc_obj sc o = Ok bs /\
+    if d then exists p, encode_varint (Zlength bs) = Ok p /\ out = p ++ bs else out = bs.
+Proof. exact dump_ok_inv. Qed.
+Print Assumptions C09_dump_ok_inv.
+
+(* ... and dump() raises only when bytes() raises or, delimited, when the length does not fit a varint *)
+Theorem C09_dump_err_inv : forall sc o d e, dump sc o d = Err e ->
+  enc_obj sc o = Err e \/ (d = true /\ exists bs, enc_obj sc o = Ok bs /\ encode_varint (Zlength bs) = Err e).
+Proof. exact dump_err_inv. Qed.
+Print Assumptions C09_dump_err_inv.
+
+Theorem C09_dump_delimited_total : forall sc o bs, enc_obj sc o = Ok bs -> Zlength bs < 2 ^ 64 -> exists out, dump sc o true = Ok out.
+Proof. exact dump_delimited_total. Qed.
+Print Assumptions C09_dump_delimited_total.
+
+(* the delimited dump is size_varint(len(m)) + len(m) bytes long *)
+Theorem C09_dump_delimited_size : forall sc o out, dump sc o true = Ok out ->
+  exists n k, len_obj sc o = Ok n /\ size_varint n = Ok k /\ Zlength out = k + n.
+Proof. exact dump_delimited_size. Qed.
+Print Assumptions C09_dump_delimited_size.
+
+(* after ANY history of operations (constructor, setattr, nested assignment, parse into the same object, from_dict,
+   copies, observers: Model/C07Ops.v) len() is the size of what bytes() returns at that moment *)
+Theorem C09_len_after_history : forall sc c ops o, run7 sc (new sc c) ops = Ok o ->
+  match enc_obj sc o, len_obj sc o with
+  | Ok b, Ok n => n = Zlength b
+  | Err a, Err b => a = b
+  | _, _ => False
+  end.
+Proof. exact len_after_history. Qed.
+Print Assumptions C09_len_after_history.
 
 (* ---- non-vacuity: a message with a set-but-empty optional string, an empty-but-present
         nested message, a selected default-valued oneof member and unknown fields ---- *)
